@@ -133,11 +133,41 @@ def gen_boundary_consts() -> str:
     # perform_compile must be called in the body of the same outer try (its failures meet the same handlers)
     if not any(_calls(st, "perform_compile") for st in t_outer.body):
         raise T.TranslateError("perform_compile is not inside the outer try of compile_main")
+    # what the repository constructors raise for an unusable argument (class of every `raise` in these functions)
+    RAISED = {"ValueError": "EValueError", "RepositoryInitializationError": "ERepoInit", "TypeError": "ETypeError", "KeyError": "EKeyError",
+              "IndexError": "EIndexError", "OSError": "EOSError", "IOError": "EOSError", "FileNotFoundError": "EOSError",
+              "NotADirectoryError": "EOSError", "AssertionError": "EAssertionError", "NoCandidateException": "ENoCandidate",
+              "MetadataError": "EMetadata"}
+
+    def raised_in(fn: ast.AST, what: str) -> List[str]:
+        out = []
+        for n in ast.walk(fn):
+            if isinstance(n, ast.Raise) and n.exc is not None:
+                exc = n.exc
+                cls = _name(exc.func) if isinstance(exc, ast.Call) else _name(exc)
+                if cls not in RAISED:
+                    raise T.TranslateError(f"{what} raises unknown class {cls}")
+                out.append(RAISED[cls])
+        if not out:
+            raise T.TranslateError(f"{what}: no raise found (the unusable-argument test moved?)")
+        return out
+
+    def method(mod: ast.AST, cls: str, name: str) -> ast.AST:
+        for n in ast.walk(T.klass(mod, cls)):
+            if isinstance(n, ast.FunctionDef) and n.name == name:
+                return n
+        raise T.TranslateError(f"{cls}.{name} not found")
+
+    src_init = raised_in(method(T.parse("req_compile/repos/source.py"), "SourceRepository", "__init__"), "SourceRepository.__init__")
+    fl_links = raised_in(method(T.parse("req_compile/repos/findlinks.py"), "FindLinksRepository", "_find_all_links"), "FindLinksRepository._find_all_links")
+    br = raised_in(T.func(T.parse("req_compile/cmdline.py"), "build_repo"), "build_repo")
     body = T.HEADER.replace("harness/translate.py", "harness/tr_boundary.py")
     body += "From RC Require Import model.BoundaryTypes.\n"
     body += f"Definition loader_add_sources_handlers : list (list hcls * action) := {_handlers(t_add)}.\n"
     body += f"Definition cmdline_build_repo_handlers : list (list hcls * action) := {_handlers(t_inner)}.\n"
     body += f"Definition cmdline_outer_handlers : list (list hcls * action) := {_handlers(t_outer)}.\n"
+    body += "(* classes raised for an unusable argument by SourceRepository.__init__, FindLinksRepository._find_all_links, build_repo *)\n"
+    body += "Definition repo_argument_failures : list exc := [" + "; ".join(src_init + fl_links + br) + "].\n"
     return body
 
 
